@@ -12,21 +12,46 @@ LEVEL = "model_checking"
 
 
 def converge_trial(sysd, iters=6):
-    """C12 speaks about a converged trial: iterate the library's own SCF until it is a fixed point"""
+    """C12/C06 speak about a converged trial.  It is converged with an INDEPENDENT dense SCF (numpy, damped; harness/scf.py),
+    not with the library's own optimize - a trial obtained by iterating the library's SCF would be a fixed point of whatever
+    that SCF computes and would hide an error in it.  The problem must be well conditioned for the library's undamped
+    30 iterations (numerical spectral radius of the Roothaan map < 0.7), otherwise it is rejected (known finding C18)."""
     import jax.numpy as jnp
-    trial, hd = sysd["trial"], dict(sysd["ham_data"])
-    wd = dict(sysd["wave_data"])
-    with proxies.suppress():
-        for _ in range(iters):
-            wd = trial.optimize(hd, wd)
-    mc = wd["mo_coeff"]
-    if isinstance(mc, (list, tuple)):
-        sysd["wave_data"]["mo_coeff"] = [jnp.array(mc[0]), jnp.array(mc[1])]
-        sysd["wave_data"]["rdm1"] = jnp.array([mc[0] @ mc[0].T, mc[1] @ mc[1].T])
+    from .. import scf
+    h1 = np.asarray(sysd["ham_data"]["h1"], dtype=float)
+    norb = sysd["norb"]
+    L = np.asarray(sysd["ham_data"]["chol"], dtype=float).reshape(-1, norb, norb)
+    nelec = tuple(sysd["nelec"])
+    mc = sysd["wave_data"]["mo_coeff"]
+    rhf = not isinstance(mc, (list, tuple))
+    C0 = [np.asarray(mc), np.asarray(mc)] if rhf else [np.asarray(mc[0]), np.asarray(mc[1])]
+    hs = [(h1[0] + h1[1]) / 2] * 2 if rhf else [h1[0], h1[1]]
+    e, it, Ds, Cs, es, conv = scf.independent_scf(hs, L, C0, nelec)
+    if not conv:
+        raise MachineryError("independent SCF did not converge on a generated test problem")
+    rho = scf.roothaan_radius(hs, L, Ds, nelec, "rhf" if rhf else "uhf")
+    sysd["roothaan_radius"] = rho
+    if not (rho < 0.7):
+        raise MachineryError(f"generated test problem is not well conditioned for an undamped SCF (radius {rho})")
+    occ = [Cs[sp][:, : nelec[sp]] for sp in (0, 1)]
+    if rhf:
+        sysd["wave_data"]["mo_coeff"] = jnp.array(occ[0])
+        sysd["wave_data"]["rdm1"] = jnp.array([occ[0] @ occ[0].T] * 2)
     else:
-        sysd["wave_data"]["mo_coeff"] = jnp.array(mc)
-        sysd["wave_data"]["rdm1"] = jnp.array([mc @ mc.T] * 2)
+        sysd["wave_data"]["mo_coeff"] = [jnp.array(occ[0]), jnp.array(occ[1])]
+        sysd["wave_data"]["rdm1"] = jnp.array([occ[0] @ occ[0].T, occ[1] @ occ[1].T])
     return sysd
+
+
+def make_converged_system(seed0, tries=40, **kw):
+    """a small problem with a mean-field trial converged by the independent SCF, well conditioned for the library's SCF"""
+    last = None
+    for t in range(tries):
+        try:
+            return converge_trial(runlevel.make_system(np.random.default_rng(seed0 + 1009 * t), **kw))
+        except MachineryError as ex:
+            last = ex
+    raise MachineryError(f"no well-conditioned test problem in {tries} draws: {last}")
 
 
 def matrix(tier):
@@ -127,9 +152,8 @@ def run(chk: Check):
         for nb in (1, 2):
             r2 = np.random.default_rng(5300 + chk.seed)       # identical physics for every n_batch
             nelec = (2, 1) if wt == "uhf" else (2, 2)
-            sysd = runlevel.make_system(r2, norb=3 if wt == "uhf" else 4, nelec=nelec, nchol=2,
-                                        trial_kind=wt, walker_type=wt, n_walkers=4, dt=0.02, n_batch=nb)
-            systems[(wt, nb)] = converge_trial(sysd)
+            systems[(wt, nb)] = make_converged_system(5300 + chk.seed, norb=3 if wt == "uhf" else 4, nelec=nelec, nchol=2,
+                                                      trial_kind=wt, walker_type=wt, n_walkers=4, dt=0.02, n_batch=nb)
     results, killed = {}, {}
     traces, tmeta = [], []
     seed0 = 900 + chk.seed
